@@ -13,6 +13,13 @@ def run(ctx: Ctx) -> None:
     with ctx.only("T11x.expv"):  # logv iterates on expv(v, steps=exp_steps, inverse=True): every steps / scale / inverse combination (shared with C11)
         t11_expv.run_expv(ctx)
     ctx.floor("T11x.expv", 50)
+    from ..tables import t5_derivs
+    # the Lie bracket is built from Jacobians: precision of float64 fields and spacing scaling in every derivative mode (shared with C12)
+    with ctx.only("T5.dtype"):
+        t5_derivs.run_dtype(ctx)
+    t5_derivs.run_gaussian_spacing(ctx)
+    ctx.floor("T5.dtype", 8)
+    ctx.floor("T5.gaussian-spacing", 2)
 
 
 def mutants(prog):
